@@ -42,3 +42,12 @@ PROPS["C10"] = {
             "decoder does not accept (err or panic)",
     "assumptions": ["allocation is measured by a counting global allocator around the decoder call only; bound checked: peak <= 8*len + 4096"],
 }
+
+
+# further properties: one file per property (checklib/props_Cxx.py defining PROP = {...})
+import glob, importlib.util, os as _os
+for _f in sorted(glob.glob(_os.path.join(_os.path.dirname(_os.path.abspath(__file__)), "props_C*.py"))):
+    _spec = importlib.util.spec_from_file_location(_os.path.basename(_f)[:-3], _f)
+    _m = importlib.util.module_from_spec(_spec)
+    _spec.loader.exec_module(_m)
+    PROPS[_os.path.basename(_f)[6:-3]] = _m.PROP
